@@ -554,6 +554,12 @@ def gen_buffers(rng, noise=False):
     if noise:
         spec['T'] = [rng.choice([7.3, 12.9, 19.9])]
         spec.pop('between', None)
+    elif len(spec['T']) > 1 and rng.random() < 0.6:
+        # a machine with its own sink is attached between two simulate() calls to a device of a (congested) line
+        feeders = [d['n'] for d in devs if d['k'] in ('S', 'B', 'P', 'H')]
+        spec.setdefault('between', []).append([rng.randrange(len(spec['T']) - 1), 'newline',
+                                               rng.sample(feeders, min(len(feeders), rng.choice([1, 2, 9]))),
+                                               rng.choice([0, 0.5, 1, 2])])
     return spec
 
 
